@@ -25,6 +25,12 @@ void sim_yield(void);
 void sim_yield_forced(void);
 /* Block the caller until all listed tasks have ended; others run meanwhile. */
 void sim_wait_tasks(const int *ids, int n);
+/* Team barrier: the caller blocks until `team_size` tasks of team `team_id` have arrived (others run meanwhile). */
+void sim_barrier(int team_id, int team_size);
+/* Mutual exclusion between tasks (OpenMP critical / atomic fallbacks): a task finding the lock held yields until free. */
+void sim_lock(int lock_id);
+void sim_unlock(int lock_id);
+
 /* Id of the calling task (0 for the main thread, -1 if the thread is unknown to the scheduler). */
 int sim_self(void);
 
